@@ -2,7 +2,7 @@
 import ast
 
 from .common import ctx, returns, calls_in_ctx, site, reach_from_succ, bulk_appends, explore
-from .lvs import merge_key_rule, match_rules, CK, CP, last_component_guarded
+from .lvs import merge_key_rule, match_rules, CK, CP, last_component_guarded, eq_label
 from ..flow import callee_attr
 from ..loader import AnalysisError, norm
 
@@ -127,20 +127,21 @@ def run(R):
     inst = gn.qual + ' :: every node ending a rule chain is recorded for that rule'
     rec = [n for n in gn.cfg.nodes if n.kind == 'stmt' and isinstance(n.ast, ast.Assign) and ast.unparse(n.ast.targets[0]) == 'self.rule_node_ids[rc.id]'] + \
           [n for (n, c) in calls_in_ctx(gn, attr='append') if ast.unparse(c.func.value) in ('self.rule_node_ids[rc.id]', 'self.rule_node_ids.setdefault(rc.id, [])')]
-    endt = [t for t in gn.cfg.nodes if t.kind == 'test' and ast.unparse(t.ast) in ('depth == len(rc.name)', 'len(rc.name) == depth')]
+    endt = [t for t in gn.cfg.nodes if t.kind == 'test' and eq_label(t.ast, 'depth', 'len(rc.name)') is not None]
+    endlab = eq_label(endt[0].ast, 'depth', 'len(rc.name)') if endt else True      # the edge on which the chain ends at this depth
     scn = [n for (n, rv, it) in bulk_appends(gn) if ast.unparse(rv) == 'node.sign_cons' and ast.unparse(it) == 'rc.sign_cons']
     sc = scn
     unconditional = False
     if len(endt) == 1 and scn:
         lp = [n for n in gn.cfg.nodes if n.kind == 'for' and any(x is endt[0].ast for x in ast.walk(n.ast))]
         # every chain ending here contributes its signers: the next iteration cannot be reached without passing the extend
-        unconditional = bool(lp) and lp[0].id not in reach_from_succ(gn.cfg, endt[0], True, removed_nodes={scn[0].id}, follow_exc=False)
+        unconditional = bool(lp) and lp[0].id not in reach_from_succ(gn.cfg, endt[0], endlab, removed_nodes={scn[0].id}, follow_exc=False)
     recorded = False
     if rec and len(endt) == 1:
         lp_ = [n for n in gn.cfg.nodes if n.kind == 'for' and any(x is endt[0].ast for x in ast.walk(n.ast))]
         # every chain ending here is recorded for its rule: the next iteration cannot be reached without passing a recording statement
-        recorded = bool(lp_) and lp_[0].id not in reach_from_succ(gn.cfg, endt[0], True, removed_nodes={r.id for r in rec}, follow_exc=False)
-    if recorded and len(endt) == 1 and sc and unconditional and all(r.id not in gn.cfg.reachable(removed_edges={(endt[0].id, True)}) for r in rec):
+        recorded = bool(lp_) and lp_[0].id not in reach_from_succ(gn.cfg, endt[0], endlab, removed_nodes={r.id for r in rec}, follow_exc=False)
+    if recorded and len(endt) == 1 and sc and unconditional and all(r.id not in gn.cfg.reachable(removed_edges={(endt[0].id, endlab)}) for r in rec):
         R.ok('C12.GRD.1', inst, site(gn, endt[0].ast))
     else:
         R.fail('C12.GRD.1', inst, gn.qual, endt[0].ast if endt else 'def _generate_node', 'nodes where a rule ends are not all recorded / do not inherit the rule\'s signers',
